@@ -13,7 +13,7 @@ from vfacts import strip, walk, method_name, root_path, must_pass_through, is_no
 from .prov import var_table, local_sources, origins
 
 RULE = 'SIMMAP'
-FLOOR = 10
+FLOOR = 6
 ANCHORS = ['ExplicitTreeAutCore::ComputeUpwardSimulation', 'ExplicitTreeAutCore::ComputeDownwardSimulation', 'ExplicitTreeAutCore::Reduce']
 
 
